@@ -777,7 +777,8 @@ func (g *SummaryGraph) addBoundVarEdge(mark MarkWithAccessPath, cond *ConditionI
 func (g *SummaryGraph) addReturnEdge(mark MarkWithAccessPath, cond *ConditionInfo, retInstr ssa.Instruction,
 	tupleIndex int) {
 
-	if tupleIndex < 0 || tupleIndex > len(g.Returns) {
+	// the bound is the length of the tuple returned by retInstr, not the number of return instructions
+	if tupleIndex < 0 || tupleIndex >= len(g.Returns[retInstr]) {
 		return
 	}
 
